@@ -6,6 +6,10 @@ props = [json.loads(l) for l in open(os.path.join(V, "properties.jsonl"))]
 
 EVAL_NOTE = "trusted: TLC; the renderer's canonical layout and path->line map; H2 hook events (emitted after each VM state change in the single evaluator goroutine); program families are bounded (sizes in the evidence)"
 CHECKS = {
+ "C06": dict(
+   technique="TLA+ environment spec (ZnVM) open-client model checking + replay of every short history through runtime.Scope/VM; TLC trace validation (Trace_ZnVM) of operation logs recorded from the real VM; ZnEval machine over a scoping program family",
+   level="(1) TLC enumerates every history of length 5 over begin/end/declare/declare-const/assign/lookup x 2 names + a predefined name x depth<=3 (391700; quick replays a seeded 120000) and each is stepped through the real runtime.Scope and runtime.VM comparing every reply; invariants and action properties (constants never change, end-scope restores, failed op is a no-op) are checked to length 9 with a VIEW. (2) Random histories of length 400-2000 are recorded from the real VM and validated line by line by TLC against Trace_ZnVM (action, reply, scope depth, live symbols). (3) ~70 scoping programs (every block kind, nesting, recursion, exception exits, constants/inputs/得到/predefined names) must behave as the ZnEval machine says, including scope depth consistency at every statement and an empty symbol table at the end.",
+   note=EVAL_NOTE, ref="5 C06"),
  "C09": dict(
    technique="ZnEval TLA+ machine (exception facet: IThrow/IUnwind/handler frames) model-checked by TLC over the raise-point x handler-placement x class-match matrix; TLC-emitted behaviours compared event-by-event with H2-hooked executions",
    level="TLC runs the evaluator machine on every program of the matrix raise kind x depth 0..3 x site x handler placement per frame x handler ending (quick: ~1300 programs) plus constructor/handler-fault/receiver/recursion programs, checking the scope/frame invariants in every state; the real interpreter must execute the same statements at the same call depth (so stale or missing frames after a catch are visible at the next statement), display the same values (其内容, caller locals, results of repeated calls) and end with the same value or uncaught error at the same line and call chain.",
